@@ -668,6 +668,35 @@ fn codecs(rep: &mut Report, r: &mut Rng, thorough: bool) {
             rep.violation("Dr7Value|flag-operations-touch-field-bits", J::hex(fl));
         }
     }
+    // set_flags with flag sets that only partly overlap what is already there: afterwards exactly `present | given`
+    // (true) or `present & !given` (false)
+    for _ in 0..2000 {
+        rep.eval();
+        let pick = |r: &mut Rng| -> u64 { flag_bits.iter().fold(0u64, |a, &b| if r.chance(1, 3) { a | (1 << b) } else { a }) };
+        let (present, given) = (pick(r), pick(r));
+        let fields = r.next() & 0xffff_0000;
+        for value in [true, false] {
+            let mut v = Dr7Value::from_bits_truncate(fields | present);
+            v.set_flags(Dr7Flags::from_bits_truncate(given), value);
+            let exp = fields | if value { present | given } else { present & !given };
+            if v.bits() != exp {
+                rep.violation("Dr7Value::set_flags|not-insert-or-remove-of-exactly-the-given-flags", J::obj(vec![("present", J::hex(present)), ("given", J::hex(given)), ("value", J::Bool(value)), ("expected", J::hex(exp)), ("got", J::hex(v.bits()))]));
+                break;
+            }
+        }
+    }
+    rep.class("codec|Dr7Value::set_flags-partial-overlap");
+    // the privilege level of a descriptor is bits 45..46 of its (first) quadword, all four levels
+    for i in 0..4096u64 {
+        rep.eval();
+        let lo = (r.next() & !(3 << 45)) | ((i & 3) << 45);
+        let d = if i & 4 == 0 { x86_64::structures::gdt::Descriptor::UserSegment(lo) } else { x86_64::structures::gdt::Descriptor::SystemSegment(lo, r.next()) };
+        if d.dpl() as u64 != i & 3 {
+            rep.violation("Descriptor::dpl|not-bits-45-46", J::obj(vec![("low_quadword", J::hex(lo)), ("dpl()", J::U(d.dpl() as u64))]));
+            break;
+        }
+    }
+    rep.class("codec|Descriptor::dpl");
     if thorough {
         rep.exhaustive.push("Dr7Value: 4 registers x 4 conditions x 4 sizes x all 4096 flag subsets".into());
     }
